@@ -90,14 +90,27 @@ where
         // one entry, so that the resource node and the breaker statistics exist
         op::<F>(8, &pool);
     }
+    if s.p[6] > 0 {
+        vrt::order_deviations(s.p[6] as u32 - 1);
+    }
     vrt::threads(s.p[3] as u32);
     let (a, b) = (s.p[1], s.p[2]);
     let (p1, p2) = (pool.clone(), pool.clone());
-    let h1 = std::thread::spawn(move || op::<F>(a, &p1));
-    let h2 = std::thread::spawn(move || op::<F>(b, &p2));
+    let nthreads = if s.p[4] == 1 { 3 } else { 2 };
+    let h1 = std::thread::spawn(move || {
+        vrt::start_line(nthreads);
+        op::<F>(a, &p1)
+    });
+    let h2 = std::thread::spawn(move || {
+        vrt::start_line(nthreads);
+        op::<F>(b, &p2)
+    });
     let h3 = if s.p[4] == 1 {
         let p3 = pool.clone();
-        Some(std::thread::spawn(move || op::<F>(8, &p3)))
+        Some(std::thread::spawn(move || {
+            vrt::start_line(nthreads);
+            op::<F>(8, &p3)
+        }))
     } else {
         None
     };
@@ -123,7 +136,8 @@ where
 /// shape: p0 = family (0 flow, 1 circuit breaker, 2 hotspot, 3 isolation, 4 system), p1/p2 = operations of the two threads
 /// (0 load-all {A1}, 1 load-all {A1,A2,B1}, 2 load-for-resource r1 {A2}, 3 append A2, 4 clear, 5 clear-resource r1, 6 get_rules,
 /// 7 get_rules_of_resource, 8 build+exit an entry on r1), p3 = preemption bound, p4 = 1: a third thread builds/exits an entry,
-/// p5 = 1: (circuit breaker) a listener whose callbacks read the manager
+/// p5 = 1: (circuit breaker) a listener whose callbacks read the manager, p6 = 1 + bound on hash iterations of the racing
+/// operations that deviate from insertion order (0: unbounded)
 pub fn c15_managers(s: Shape) {
     match s.p[0] {
         0 => run::<FlowF>(s),
